@@ -11,7 +11,7 @@ Families (DESIGN.md §6 C17 / the property's quantifier text):
            with zeros and underscores, far too long, garbage after an overflowing prefix
   radix    outside 2..=36 (documented panic)
 """
-import json, os
+import os
 from .common import *
 
 ALNUM = "0123456789abcdefghijklmnopqrstuvwxyz"
@@ -90,13 +90,6 @@ def wrap_value(r, n, delta=0, low=12345):
         return None
     x = top * D ** (n - 1) + low
     return x if x < (1 << (64 * n)) else None
-
-
-def known_ids():
-    try:
-        return {f['id'] for f in json.load(open(os.path.join(VERIF, 'known_findings.json'))).get('findings', [])}
-    except Exception:
-        return set()
 
 
 # ------------------------------------------------------------------ value families
@@ -254,7 +247,7 @@ def parse_strings(r, bits, rng, reps):
 def gen(tier, rng):
     quick = tier == 'quick'
     radices = list(range(2, 37))
-    triggers = 'C17-encode-wrapped-shift' not in known_ids()
+    triggers = True   # the classifier c17_encode_wrapped_shift recognises exactly the as-written output
     boxed_fmt = ([1, 2, 3, 5, 14, 17, 18, 28, 31, 32, 33, 34, 40, 63, 64, 65, 70, 97, 140] if quick
                  else list(range(1, 141)))
 
